@@ -59,6 +59,17 @@ class Ctx:
         with ctx.Pool(max(1, min(self.ncpu, len(items))), maxtasksperchild=1) as pool:
             return pool.map(fn, items, 1)
 
+    def pimap_ordered(self, fn, items, chunk=None):
+        """ordered and lazy: results are consumed as they arrive instead of being held all at once"""
+        items = list(items)
+        if self.ncpu <= 1 or len(items) < 4:
+            for x in items:
+                yield fn(x)
+            return
+        if chunk is None:
+            chunk = max(1, min(256, len(items) // (self.ncpu * 8)))
+        yield from self.pool().imap(fn, items, chunk)
+
     def pimap(self, fn, items, chunk=1):
         """unordered, lazy"""
         items = list(items)
